@@ -1953,6 +1953,7 @@ func (ex *Exec) repeatCallback(st *State, c *Contract, ct *callTarget, name stri
 	}
 	// havoc what the callback may write
 	ci := ex.closures[cb.T]
+	ex.preBoxNodes(st, ci.info, []ast.Node{ci.lit.Body})
 	ws := ex.writeSetOf(&Frame{fi: ci.fi, info: ci.info, tsub: st.frame.tsub}, []ast.Node{ci.lit.Body})
 	pre := st.snapshot()
 	for obj := range ws.vars {
